@@ -628,20 +628,34 @@ func runCLI(c *engine.Ctx, shard string, p *program, fs []filter) (stdout string
 			args = append(args, "--path", f.path)
 		}
 	}
-	ctx, cancel := context.WithTimeout(context.Background(), 120*time.Second)
-	defer cancel()
-	cmd := exec.CommandContext(ctx, cliBin, args...)
-	cmd.Dir = dir
-	cmd.Env = append(os.Environ(), "ELKPATH=/repo", "NO_COLOR=1", "GOMAXPROCS=2")
-	var ob bytes.Buffer
-	cmd.Stdout = &ob
-	cmd.Stderr = &ob
-	e := cmd.Run()
-	if ee, ok := e.(*exec.ExitError); ok {
-		return ob.String(), ee.ExitCode(), nil
+	// a CLI run normally takes well under a second; on an overloaded machine it can take minutes. A run that is killed
+	// by the timeout says nothing about elk: it is retried once with a longer limit and otherwise reported as errTimedOut.
+	for _, limit := range []time.Duration{120 * time.Second, 300 * time.Second} {
+		ctx, cancel := context.WithTimeout(context.Background(), limit)
+		cmd := exec.CommandContext(ctx, cliBin, args...)
+		cmd.Dir = dir
+		cmd.Env = append(os.Environ(), "ELKPATH=/repo", "NO_COLOR=1", "GOMAXPROCS=2")
+		var ob bytes.Buffer
+		cmd.Stdout = &ob
+		cmd.Stderr = &ob
+		e := cmd.Run()
+		timedOut := ctx.Err() != nil
+		cancel()
+		if timedOut {
+			continue
+		}
+		if ee, ok := e.(*exec.ExitError); ok {
+			if ee.ExitCode() < 0 {
+				continue // killed by a signal: not an answer either
+			}
+			return ob.String(), ee.ExitCode(), nil
+		}
+		return ob.String(), 0, e
 	}
-	return ob.String(), 0, e
+	return "", 0, errTimedOut
 }
+
+var errTimedOut = fmt.Errorf("the elk CLI did not finish within the time limit (overloaded machine)")
 
 // ---------------------------------------------------------------------------------------------------------
 
@@ -805,6 +819,11 @@ func run(c *engine.Ctx) {
 					}
 					for _, fs := range sets {
 						out, exit, err := runCLI(c, shard, p, fs)
+						if err == errTimedOut {
+							r.Count("cli invocation timed out twice (not judged)", 1)
+							r.Capped("a CLI invocation did not finish within 300 s")
+							continue
+						}
 						if err != nil {
 							panic(fmt.Sprintf("infrastructure: cannot run the elk CLI: %v\n%s", err, out))
 						}
@@ -904,8 +923,9 @@ func main() {
 				prepareCLI()
 			}
 		},
-		Run:         run,
-		CaseTimeout: 600 * time.Second,
+		Run:           run,
+		CaseTimeout:   600 * time.Second,
+		QuickDeadline: 15 * time.Minute, // the tier is sized for ~1 min on 16 idle cores; the cap only matters on an overloaded machine
 		Finish: func(a *engine.Agg) {
 			os.RemoveAll(filepath.Join(engine.Root, ".work", "c34", fmt.Sprintf("run-%d", os.Getpid())))
 		},
